@@ -140,6 +140,22 @@ func isNilPtr(x any) bool {
 	return v.Kind() == reflect.Ptr && v.IsNil()
 }
 
+/*
+isTypedNil returns a Boolean value indicative of whether x is a
+non-nil interface holding a nil value of any nillable kind
+(pointer, func, map, slice or channel).
+*/
+func isTypedNil(x any) bool {
+	if x == nil {
+		return false
+	}
+	switch v := valOf(x); v.Kind() {
+	case reflect.Ptr, reflect.Func, reflect.Map, reflect.Slice, reflect.Chan:
+		return v.IsNil()
+	}
+	return false
+}
+
 func isPtr(t reflect.Type) bool {
 	if t == nil {
 		return false
